@@ -15,7 +15,7 @@ use std::sync::Mutex;
 use std::time::{Duration, Instant};
 
 pub const ID: &str = "C10";
-pub const FAMS: [&str; 4] = ["threshold", "arbitrary", "cell-at-capacity", "extremes"];
+pub const FAMS: [&str; 5] = ["threshold", "arbitrary", "cell-at-capacity", "extremes", "crafted"];
 
 pub fn jobs(ctx: &Ctx) -> Vec<Job> {
     let caps = &ctx.caps;
@@ -74,6 +74,24 @@ pub fn jobs(ctx: &Ctx) -> Vec<Job> {
             for gen in 0..GEN_COUNT {
                 k += 1;
                 jobs.push(Job { fam: FAMS[3], class, mode: if gen % 2 == 0 { None } else { Some(class) }, level: opt(&mut rng, 4), version: opt(&mut rng, 40).map(|v| v + 1), mask: opt(&mut rng, 8), len, gen, seed: mix(ctx.seed, k), ..Default::default() });
+            }
+        }
+    }
+    // crafted: the data area of the symbol equals each mask pattern / its complement / uniform / finder
+    // look-alike rows and columns / stripes (every counter of the scoring code at its extreme), and data
+    // codewords with prescribed per-block shapes (all padding pattern, zero blocks, identical blocks)
+    for v in 1..=40usize {
+        for level in 0..4usize {
+            for t in 0..crate::craft::TARGET_COUNT {
+                k += 1;
+                if ctx.tier == Tier::Quick && v > 4 && v < 36 && (v + level + t) % 3 != 0 {
+                    continue;
+                }
+                jobs.push(Job::crafted(FAMS[4], crate::job::CRAFT_TARGET, t, v, level, if k % 4 == 0 { Some((k / 4 % 8) as usize) } else { None }, mix(ctx.seed, k)));
+            }
+            for sh in 0..crate::craft::CW_SHAPE_COUNT {
+                k += 1;
+                jobs.push(Job::crafted(FAMS[4], crate::job::CRAFT_SHAPE, sh, v, level, if k % 4 == 0 { Some((k / 4 % 8) as usize) } else { None }, mix(ctx.seed, k)));
             }
         }
     }
@@ -152,7 +170,15 @@ pub fn observe(ctx: &Ctx, st: &mut Stats, job: &Job) {
         st.reach("cells_at_capacity", ((job.version.unwrap() * 4 + job.level.unwrap()) * 3 + job.class) as u64);
     }
     st.reach("option_shapes", (cfg.mode.is_some() as u64) | (cfg.version.is_some() as u64) << 1 | (cfg.mask.is_some() as u64) << 2 | (cfg.level.is_some() as u64) << 3);
-    st.reach("generators", job.gen as u64);
+    if job.aux[3] == crate::job::CRAFT_TARGET {
+        st.reach("crafted_targets", job.aux[0] as u64);
+        st.count("crafted_payload_builds", 1);
+    } else if job.aux[3] == crate::job::CRAFT_SHAPE {
+        st.reach("crafted_shapes", job.aux[0] as u64);
+        st.count("crafted_payload_builds", 1);
+    } else {
+        st.reach("generators", job.gen as u64);
+    }
     st.distinct(job.key(&cfg.input));
     st.sample(4099, || json!({"options": cfg.describe(), "input": adapter::short_hex(&cfg.input), "outcome": out.kind()}));
 }
@@ -233,13 +259,16 @@ pub fn run(ctx: &Ctx) -> Report {
     if ctx.tier == Tier::Thorough {
         let r = sanit::miri_stage(ctx, "c10", 16);
         r.apply(ID, &mut st, &mut extra);
+        // every fixed-size buffer walked to its far end under the interpreter: one big version per process
+        let r = sanit::miri_stage_large(ctx, "c10-large");
+        r.apply(ID, &mut st, &mut extra);
     }
     let mut rep = Report::new(
         st,
-        "jobs = all 480 capacity thresholds +-2 under rotating version options {auto, 1, vmin-1, vmin, vmin+1, 40} and forced/automatic mode, level, mask; every (version, level, mode) cell at capacity with automatic mask; special lengths {0,1,2,7089..7091,8000,65535,65536,...} x 7 payload generators (all-zero, all-0xFF, pad look-alikes, mode-indicator look-alikes, ...); arbitrary strings of length 0..8000 with random option combinations (forced modes only when their alphabet contains the input); each build runs under catch_unwind in a profile with overflow-checks and debug-assertions enabled; outcome must be Ok / Err(EncodedData) / Err(SpecifiedVersion); watchdog re-runs any job slower than 20 s in a child process (120 s limit); thorough adds the Miri stage; distinct key = (options, len, payload hash); every case non-trivial",
+        "jobs = all 480 capacity thresholds +-2 under rotating version options {auto, 1, vmin-1, vmin, vmin+1, 40} and forced/automatic mode, level, mask; every (version, level, mode) cell at capacity with automatic mask; special lengths {0,1,2,7089..7091,8000,65535,65536,...} x 11 payload generators (all-zero, all-0xFF, pad look-alikes, mode-indicator look-alikes, real-world tokens and magic prefixes, zero runs, periodic, alternating extremes, ...); crafted byte payloads at every (version, level): data area equal to each of the 8 mask patterns and their complements, uniform, finder look-alike rows/columns, stripes, 2x2 blocks (24 targets: every counter of the scoring code at its extreme) and 8 per-block codeword shapes (all padding pattern, zero blocks, identical blocks, leading zeros); arbitrary strings of length 0..8000 with random option combinations (forced modes only when their alphabet contains the input); each build runs under catch_unwind in a profile with overflow-checks and debug-assertions enabled; outcome must be Ok / Err(EncodedData) / Err(SpecifiedVersion); watchdog re-runs any job slower than 20 s in a child process (120 s limit); thorough adds two Miri stages (240 small builds+renders; 16 builds at versions 5..40, one interpreter process each); distinct key = (options, len, payload hash); every case non-trivial",
     );
-    rep.expected_sets = vec![("cells_at_capacity", 480), ("option_shapes", 16), ("generators", 7), ("version_level_built", 160)];
-    rep.required_sets = vec![("cells_at_capacity", 480), ("option_shapes", 16), ("generators", 7)];
+    rep.expected_sets = vec![("cells_at_capacity", 480), ("option_shapes", 16), ("generators", 11), ("crafted_targets", 24), ("crafted_shapes", 8), ("version_level_built", 160)];
+    rep.required_sets = vec![("cells_at_capacity", 480), ("option_shapes", 16), ("generators", 11), ("crafted_targets", 24), ("crafted_shapes", 8)];
     rep.min_evaluations = 20_000;
     rep.extra = extra;
     rep.assumptions = vec![
